@@ -11,6 +11,9 @@
 #include "vf.h"
 
 #ifndef VF_NATIVE
+#include <complex.h>
+double creal(double complex z) { return ((double *)&z)[0]; }
+double cimag(double complex z) { return ((double *)&z)[1]; }
 static int vf_max_len(const char *fmt, va_list ap)
 {
     /* the three formats of vnacal_save.c; %e with P digits after the point: sign d . P digits e sign 3 digits = P + 8 (P >= 1), 7 if P == 0 */
@@ -48,6 +51,7 @@ int snprintf(char *buf, size_t size, const char *fmt, ...)
     int n = vf_max_len(fmt, ap);
     va_end(ap);
     VF_ASSERT(size <= __CPROVER_OBJECT_SIZE(buf), "C07.a: snprintf is given the true size of its buffer");
+    VF_ASSERT((size_t)n < size, "C07.a: the formatted number (C11 maximum length) is not truncated by the buffer it is printed into");
     if (size > 0) { buf[0] = size > 1 ? '1' : '\000'; if (size > 1) buf[1] = '\000'; }
     return n;
 }
@@ -85,6 +89,16 @@ void harness(void)
 	VF_REACH("add_complex");
     }
     VF_ASSERT(rc != 0, "C07.a: a tag or -1 is returned");
+#ifdef VF_NATIVE
+    if (rc > 0) {
+	/* native replay: the text handed to libyaml must be the complete number(s) */
+	yaml_node_t *node = yaml_document_get_node(&doc, rc);
+	const char *txt = (const char *)node->data.scalar.value;
+	size_t len = node->data.scalar.length;
+	if (which == 1) VF_ASSERT(len > 0 && txt[len - 1] == 'j', "C07.a: the formatted number (C11 maximum length) is not truncated by the buffer it is printed into");
+	else VF_ASSERT(strtod(txt, NULL) == re || prec < 17, "C07.a: the formatted number is complete");
+    }
+#endif
 #ifdef VF_NATIVE
     yaml_document_delete(&doc);
 #endif
